@@ -6,26 +6,14 @@
 (* propagated to the group's cache.  The pause automaton is the one of     *)
 (* Panic.tla; the operational state is changed by the group admin.         *)
 (***************************************************************************)
-EXTENDS PropsRisk, PropsPanic, Sequences
+EXTENDS PropsRisk, PropsPanic, Sequences, PanicImpl
 
 CONSTANTS TickSet
 T0 == 1700000000
-PAUSE == 1800
-DAY == 86400
 VARIABLES now, ps, cache, op, acc, sid
 vars == <<now, ps, cache, op, acc, sid>>
 
-ImplIsExpired(p, t) == IF p.flags = 0 THEN TRUE ELSE IF t < p.start THEN FALSE ELSE t - p.start >= PAUSE
-ImplUnpause(p) == [p EXCEPT !.flags = 0, !.start = 0, !.consec = 0]
-ImplUnpauseIfExpired(p, t) == IF p.flags = 1 /\ ImplIsExpired(p, t) THEN ImplUnpause(p) ELSE p
-ImplCanPause(p, t) == LET d == IF t - p.reset >= DAY THEN 0 ELSE p.daily IN p.consec < 2 /\ d < 3
-ImplPause(p, t) ==
-  LET p1 == ImplUnpauseIfExpired(p, t)
-      p2 == IF t - p1.reset >= DAY THEN [p1 EXCEPT !.daily = 0, !.reset = t] ELSE p1
-  IN IF ~ImplCanPause(p2, t) THEN <<FALSE, p>>
-     ELSE LET p3 == IF p2.flags = 1 /\ ~ImplIsExpired(p2, t) THEN [p2 EXCEPT !.start = p2.start + PAUSE] ELSE [p2 EXCEPT !.start = t]
-          IN <<TRUE, [p3 EXCEPT !.flags = 1, !.daily = p3.daily + 1, !.consec = p3.consec + 1]>>
-ImplGroupPaused(c, t) == c.flags = 1 /\ ~ImplIsExpired(c, t)
+\* (ImplIsExpired, ImplUnpause, ImplUnpauseIfExpired, ImplCanPause, ImplPause, ImplGroupPaused: module PanicImpl, shared with PanicInd.tla)
 
 S(t, p, c, o) ==
   [clock |-> [ts |-> BOfInt(t)],
